@@ -317,6 +317,101 @@ std::string do_reput(const Case& c) {
 	return os.str();
 }
 
+// rtrunc type=T ver=.. bytes=<hex> at=<n>[,<n>..]: read every listed prefix of the block bytes into a
+// fresh object, write it, destroy it. The observation is that nothing crashes (ASan/UBSan build).
+std::string do_rtrunc(const Case& c) {
+	auto fac = NiFactoryRegister::Get().GetFactoryByName(c.get("type"));
+	if (!fac)
+		return "NOFACTORY";
+	NiHeader hdr;
+	hdr.SetVersion(parse_ver(c.get("ver")));
+	std::string hexs = c.get("bytes"), bytes;
+	for (size_t i = 0; i + 1 < hexs.size(); i += 2)
+		bytes.push_back(static_cast<char>(std::stoi(hexs.substr(i, 2), nullptr, 16)));
+	std::ostringstream os;
+	g_generate = false;
+	for (auto& a : split(c.get("at"), ',')) {
+		size_t n = std::min<size_t>(std::stoull(a), bytes.size());
+		std::istringstream bin(bytes.substr(0, n));
+		NiIStream bstream(&bin, &hdr);
+		auto obj = fac->Create();
+		obj->Get(bstream);
+		PutResult p = put_block(obj.get(), hdr);
+		os << n << ":" << p.bytes.size() << " ";
+	}
+	return os.str();
+}
+
+// stale type=T ver=.. seed=N: the behavioural consequence of C05. A generated instance of T sits in a
+// model behind four placeholder nodes; the values of all references passing through its Put are
+// recorded, block 1 is deleted through NiHeader::DeleteBlock, and the references are recorded again:
+// a reference to block 1 must now be empty, one above 1 must be one less, the others unchanged.
+// The same is done for SetBlockOrder with a rotation.
+std::string do_stale(const Case& c) {
+	auto fac = NiFactoryRegister::Get().GetFactoryByName(c.get("type"));
+	if (!fac)
+		return "NOFACTORY";
+	NifFile nif;
+	nif.Create(parse_ver(c.get("ver")));          // block 0: root node
+	for (int i = 0; i < 3; ++i)
+		nif.GetHeader().AddBlock(std::make_unique<NiNode>());
+	NiHeader& hdr = nif.GetHeader();
+	// generative read of the instance (references take values in {NPOS, 0..3})
+	std::string zeros(1 << 20, '\0');
+	std::istringstream zin(zeros);
+	NiIStream gin(&zin, &hdr);
+	auto objS = fac->Create();
+	NiObject* obj = objS.get();
+	g_gen.seed(static_cast<uint64_t>(c.geti("seed")) * 1000003ULL + std::hash<std::string>()(c.get("type") + c.get("ver")));
+	g_maxCount = 3;
+	g_nextIsRef = false;
+	g_monotoneBytes = c.get("type") == "BSGeometry";
+	g_sawZeroByte = false;
+	g_trace.clear();
+	g_refs.clear();
+	g_srefs.clear();
+	g_generate = true;
+	obj->Get(gin);
+	g_generate = false;
+	hdr.AddBlock(std::move(objS));               // block 4
+	auto values = [&]() {
+		PutResult p = put_block(obj, hdr);
+		std::vector<uint32_t> v;
+		for (auto r : p.refs)
+			v.push_back(static_cast<NiRef*>(r)->index);
+		return v;
+	};
+	std::vector<uint32_t> before = values();
+	hdr.DeleteBlock(1u);
+	std::vector<uint32_t> after = values();
+	// CleanInvalidRefs may drop emptied entries of reference arrays: compare as multisets of the expected images
+	std::vector<uint32_t> expect;
+	for (uint32_t v : before)
+		expect.push_back(v == NIF_NPOS ? v : (v == 1 ? NIF_NPOS : (v > 1 ? v - 1 : v)));
+	auto nonempty = [](std::vector<uint32_t> v) {
+		v.erase(std::remove(v.begin(), v.end(), NIF_NPOS), v.end());
+		std::sort(v.begin(), v.end());
+		return v;
+	};
+	bool del_ok = nonempty(expect) == nonempty(after);
+	// rotation of the remaining blocks
+	uint32_t n = hdr.GetNumBlocks();
+	std::vector<uint32_t> order(n);
+	for (uint32_t i = 0; i < n; ++i)
+		order[i] = (i + 1) % n;
+	std::vector<uint32_t> b2 = values();
+	hdr.SetBlockOrder(order);
+	std::vector<uint32_t> a2 = values();
+	std::vector<uint32_t> e2;
+	for (uint32_t v : b2)
+		e2.push_back(v == NIF_NPOS || v >= n ? v : order[v]);
+	bool ord_ok = nonempty(e2) == nonempty(a2);
+	std::ostringstream os;
+	os << "nref=" << before.size() << " del_ok=" << del_ok << " ord_ok=" << ord_ok << " before=" << str_list(before) << " after=" << str_list(after)
+	   << " b2=" << str_list(b2) << " a2=" << str_list(a2);
+	return os.str();
+}
+
 uint64_t fnv1a(const std::string& s) {
 	uint64_t h = 1469598103934665603ULL;
 	for (unsigned char c : s) {
@@ -324,6 +419,151 @@ uint64_t fnv1a(const std::string& s) {
 		h *= 1099511628211ULL;
 	}
 	return h;
+}
+
+uint64_t fnv1a(const std::string& s);
+
+// a digest of what the read-only API answers about a model (for "queries answer the same before and
+// after a save")
+std::string model_digest(NifFile& nif) {
+	std::ostringstream os;
+	auto& hdr = nif.GetHeader();
+	os << "blocks=" << hdr.GetNumBlocks() << ";";
+	for (uint32_t i = 0; i < hdr.GetNumBlocks(); ++i)
+		os << hdr.GetBlockTypeStringById(i) << ",";
+	os << ";";
+	for (auto n : nif.GetNodes())
+		os << n->name.get() << ",";
+	os << ";";
+	for (auto shape : nif.GetShapes()) {
+		os << shape->name.get() << ":";
+		std::string acc;
+		if (auto v = nif.GetVertsForShape(shape))
+			acc.append(reinterpret_cast<const char*>(v->data()), v->size() * sizeof(Vector3));
+		if (auto nrm = nif.GetNormalsForShape(shape))
+			acc.append(reinterpret_cast<const char*>(nrm->data()), nrm->size() * sizeof(Vector3));
+		if (auto uv = nif.GetUvsForShape(shape))
+			acc.append(reinterpret_cast<const char*>(uv->data()), uv->size() * sizeof(Vector2));
+		std::vector<Triangle> tris;
+		shape->GetTriangles(tris);
+		acc.append(reinterpret_cast<const char*>(tris.data()), tris.size() * sizeof(Triangle));
+		os << shape->GetNumVertices() << ":" << tris.size() << ":" << shape->HasTangents() << ":" << std::hex << fnv1a(acc) << std::dec << ":";
+		std::vector<std::string> bones;
+		nif.GetShapeBoneList(shape, bones);
+		for (auto& b : bones)
+			os << b << ",";
+		os << ":";
+		for (uint32_t t = 0; t < 10; ++t) {
+			std::string tex;
+			nif.GetTextureSlot(shape, tex, t);
+			os << tex << ",";
+		}
+		os << ";";
+	}
+	return os.str();
+}
+
+// save3 name=<sample> opts=raw|default: three saves of ONE loaded object with queries in between
+std::string do_save3(const Case& c) {
+	const char* sdir = std::getenv("VERIF_SAMPLES");
+	std::string path = std::string(sdir ? sdir : "/repo/tests/input") + "/" + c.get("name");
+	std::ifstream f(path, std::ios::binary);
+	if (!f)
+		return "NOFILE";
+	NifFile nif;
+	int lrc = nif.Load(f);
+	if (lrc != 0)
+		return "load=" + std::to_string(lrc);
+	NifSaveOptions so;
+	if (c.get("opts") == "raw") {
+		so.optimize = false;
+		so.sortBlocks = false;
+	}
+	std::ostringstream os;
+	std::string d0 = model_digest(nif);
+	std::string outs[3], digs[3];
+	for (int r = 0; r < 3; ++r) {
+		std::stringstream ss;
+		int src = nif.Save(ss, so);
+		outs[r] = ss.str();
+		digs[r] = model_digest(nif);
+		os << "save" << r << "=" << src << ":" << outs[r].size() << ":" << std::hex << fnv1a(outs[r]) << std::dec << " ";
+	}
+	// raw save must not change what queries answer at all; a default save may reorder/prune once, after
+	// that nothing may change any more
+	// outputs are compared after canonical string-table renumbering: the table is rebuilt in block order
+	// BEFORE the blocks are sorted, so the first default save may number the same strings differently
+	auto canon = [](const std::string& bytes) {
+		std::stringstream in(bytes);
+		NifFile re;
+		if (re.Load(in) != 0)
+			return std::string("LOADFAIL");
+		NifSaveOptions raw;
+		raw.optimize = false;
+		raw.sortBlocks = false;
+		std::stringstream o;
+		re.Save(o, raw);
+		return o.str();
+	};
+	std::string c0 = canon(outs[0]), c1 = canon(outs[1]), c2 = canon(outs[2]);
+	os << "q01=" << (d0 == digs[0]) << " q12=" << (digs[0] == digs[1]) << " q23=" << (digs[1] == digs[2]) << " same12=" << (c0 == c1 && c0 != "LOADFAIL")
+	   << " same23=" << (c1 == c2 && c1 != "LOADFAIL") << " bytes12=" << (outs[0] == outs[1]) << " bytes23=" << (outs[1] == outs[2]);
+	if (d0 != digs[0])
+		os << " d0=" << hex(d0.substr(0, 600)) << " d1=" << hex(digs[0].substr(0, 600));
+	return os.str();
+}
+
+// fileblk type=T ver=.. seed=N: a generated instance of T inside a minimal file: raw save, load, raw save
+std::string do_fileblk(const Case& c) {
+	auto fac = NiFactoryRegister::Get().GetFactoryByName(c.get("type"));
+	if (!fac)
+		return "NOFACTORY";
+	NifFile nif;
+	nif.Create(parse_ver(c.get("ver")));
+	for (int i = 0; i < 3; ++i)
+		nif.GetHeader().AddBlock(std::make_unique<NiNode>());
+	NiHeader& hdr = nif.GetHeader();
+	std::string zeros(1 << 20, '\0');
+	std::istringstream zin(zeros);
+	NiIStream gin(&zin, &hdr);
+	auto objS = fac->Create();
+	g_gen.seed(static_cast<uint64_t>(c.geti("seed")) * 1000003ULL + std::hash<std::string>()(c.get("type") + c.get("ver")));
+	g_maxCount = 3;
+	g_nextIsRef = false;
+	g_monotoneBytes = c.get("type") == "BSGeometry";
+	g_sawZeroByte = false;
+	g_generate = true;
+	objS->Get(gin);
+	g_generate = false;
+	hdr.AddBlock(std::move(objS));
+	NifSaveOptions raw;
+	raw.optimize = false;
+	raw.sortBlocks = false;
+	std::ostringstream os;
+	std::stringstream s1;
+	int r1 = nif.Save(s1, raw);
+	std::string b1 = s1.str();
+	std::stringstream s1b;
+	int r1b = nif.Save(s1b, raw);
+	os << "save=" << r1 << ":" << b1.size() << " again=" << (s1b.str() == b1);
+	std::stringstream in(b1);
+	NifFile re;
+	int lrc = re.Load(in);
+	os << " load=" << lrc;
+	if (lrc == 0) {
+		std::stringstream s2;
+		int r2 = re.Save(s2, raw);
+		std::string b2 = s2.str();
+		os << " resave=" << r2 << ":" << b2.size();
+		std::stringstream in2(b2);
+		NifFile re2;
+		int l2 = re2.Load(in2);
+		std::stringstream s3;
+		if (l2 == 0)
+			re2.Save(s3, raw);
+		os << " load2=" << l2 << " fixed=" << (s3.str() == b2);
+	}
+	return os.str();
 }
 
 // resave name=<sample> opts=raw|default [rounds=N] [dump=1]: load a sample file and save it N times
@@ -398,9 +638,9 @@ int oracle_blocks(int, char**) {
 				os << (i ? "," : "") << names[i];
 			r = os.str();
 		}
-		else if (c.op == "blk" || c.op == "reput" || c.op == "resave") {
+		else if (c.op == "blk" || c.op == "reput" || c.op == "resave" || c.op == "rtrunc" || c.op == "stale" || c.op == "save3" || c.op == "fileblk") {
 			try {
-				r = c.op == "blk" ? do_blk(c) : (c.op == "reput" ? do_reput(c) : do_resave(c));
+				r = c.op == "blk" ? do_blk(c) : (c.op == "reput" ? do_reput(c) : (c.op == "rtrunc" ? do_rtrunc(c) : (c.op == "stale" ? do_stale(c) : (c.op == "save3" ? do_save3(c) : (c.op == "fileblk" ? do_fileblk(c) : do_resave(c))))));
 			}
 			catch (const std::exception& e) {
 				r = std::string("EXC:") + e.what();
